@@ -28,6 +28,12 @@ EXPLANATION = (
     'the writer adds to shorter vector columns is not read back as polygon vertices. Not decided: astropy table/FITS I/O.')
 EXPLANATION_ADDED = (' (R12) column addressing on read (NAME<i> is element i of the cell, NAME the whole cell) on a probe row; (R13) table rows become regions in row order, skipped rows are dropped, foreign columns are rejected.')
 EXPLANATION += EXPLANATION_ADDED
+EXPLANATION_ADDED2 = (" (R5b) the SHAPE cell is split into (shape key, include) by the reader on probe cells ('!' prefix, padding, letter case).")
+EXPLANATION += EXPLANATION_ADDED2
+EXPLANATION_ADDED3 = (" (R3 also) the ROTANG cell is the region's angle converted to degrees (`to(angle, deg)`), not the bare number of whatever unit the angle carries.")
+EXPLANATION += EXPLANATION_ADDED3
+EXPLANATION_ADDED4 = (' (R11 also) the number of vertices read must not depend on comparing the cell values with a finite number (a cut at the last non-zero entry drops a genuine vertex at that coordinate).')
+EXPLANATION += EXPLANATION_ADDED4
 TRUSTED = ['np.atleast_1d keeps element order', 'QTable column access by name']
 ASSUMPTIONS = ['real arithmetic']
 
@@ -688,7 +694,23 @@ def r11(ctx):
     ctx.need(reg is not None and isinstance(reg.fields.get('vertices'), Obj), 'polygon row', 'reader builds no polygon')
     v = reg.fields['vertices']
     bare = [k for k in ('x', 'y') if isinstance(v.fields.get(k), App) and v.fields[k].name == 'col']
-    if pads and bare:
+    # a cut that depends on the VALUES of the cells (compared with a finite number) cannot tell padding from a vertex with
+    # that coordinate: whatever the writer pads with, a polygon ending in such a vertex comes back shorter
+    from ..vg import walk_terms, Cmp as _Cmp, is_num as _is_num
+    valcut = None
+    for k in ('x', 'y'):
+        for t in walk_terms(v.fields.get(k)):
+            if isinstance(t, _Cmp) and t.op in ('==', '!=', '<', '<=', '>', '>='):
+                for cell, other in ((t.lhs, t.rhs), (t.rhs, t.lhs)):
+                    if isinstance(cell, App) and cell.name == 'col' and _is_num(other) and getattr(other, 'is_number', False) \
+                            and other.is_finite:
+                        valcut = valcut or (show(t, 60), other)
+    if valcut:
+        ctx.bad('polygon row', 'vertex-value-read-as-padding',
+                f'the number of vertices read for a polygon depends on the cell values themselves ({valcut[0]}): {valcut[1]} is a '
+                f'legal pixel coordinate, so a polygon whose last vertices have that coordinate comes back with fewer vertices '
+                f'({show(v, 100)})', f.loc())
+    elif pads and bare:
         ctx.bad('polygon row', 'padding-read-as-vertices',
                 f'the writer pads shorter X/Y vectors with zeros ({pads[0][0].name}) and the reader builds the polygon from the '
                 f'whole column ({show(v, 100)}): in a table holding polygons with different numbers of vertices the shorter ones '
